@@ -48,7 +48,17 @@ def main():
         with open(a.replay) as f:
             rec = json.load(f)
         out = mod.replay(rec["case"])
-        print(json.dumps(common.jsonable(out), indent=1))
+        sh = rec["case"].get("_shard") if isinstance(rec["case"], dict) else None
+        if isinstance(out, dict) and not out.get("violations") and sh:
+            # re-execute the shard that found the violation and keep what it reports under the same key
+            def tup(x):
+                return tuple(tup(v) for v in x) if isinstance(x, list) else x
+
+            fn = getattr(importlib.import_module(sh["module"]), sh["function"])
+            t = fn(*[tup(a) for a in sh["args"]])
+            same = [[v["key"], v["message"]] for v in t.violations if v["key"] == rec.get("key")]
+            out = {**out, "violations": same, "re_executed_shard": sh, "all_keys_in_shard": sorted({v["key"] for v in t.violations})}
+        print(json.dumps(common.jsonable(out), indent=1)[:6000])
         bad = bool(out.get("violations")) if isinstance(out, dict) else bool(out)
         if bad:
             print(f"VIOLATION property={mod.ID} replay={os.path.abspath(a.replay)}")
